@@ -101,7 +101,15 @@ func VerifH_XHashIndex() {
 	n := symx.Param("shards", 73)
 	r := NewReMap(WithPrime(uint64(n)))
 	var key interface{}
-	switch symx.Concrete(symx.Int("kind"), 0, 6) {
+	switch symx.Concrete(symx.Int("kind"), 0, 10) {
+	case 7:
+		key = symx.Uint16("v")
+	case 8:
+		key = symx.Int32("v")
+	case 9:
+		key = symx.Uint64("v")
+	case 10:
+		key = symx.Int("v")
 	case 0:
 		key = symx.String("s", symx.Concrete(symx.Int("len"), 0, 3))
 	case 1:
@@ -124,6 +132,22 @@ func VerifH_XHashIndex() {
 	})
 	symx.Assert(i >= 0 && i < n, "index in [0, shards)")
 	symx.Assert(i == j, "deterministic")
+	if n <= 7 { // (each lookup forks over the boundary table: the small tables carry this part)
+		// stable: the index of a key does not depend on which other keys were routed in between
+		var other interface{}
+		switch symx.Concrete(symx.Int("otherKind"), 0, 3) {
+		case 0:
+			other = symx.Int64("o")
+		case 1:
+			other = symx.Uint32("o")
+		case 2:
+			other = symx.String("os", 2)
+		case 3:
+			other = symx.Uint8("o")
+		}
+		_ = r.XHashIndex(other)
+		symx.Assert(r.XHashIndex(key) == i, "stable: the same shard after another key was routed")
+	}
 	// SimpleIndex falls through to the hash route for non-integer kinds
 	if symx.Bool("viaSimple") {
 		k := r.SimpleIndex(key)
